@@ -6,6 +6,6 @@ CONSTANTS
   MaxLen = 2
   Mutant = "none"
 VIEW view
-INVARIANTS TypeOK EnforcedIsLatestValid NothingElseEnforced OnlyValidEnforced ReportedIsEnforced IdenticalReloadUnchanged
+INVARIANTS TypeOK EnforcedIsLatestValid NothingElseEnforced OnlyValidEnforced ReportedIsEnforced NoStaleVariant IdenticalReloadUnchanged
 PROPERTIES ErrorMeansRejected
 CHECK_DEADLOCK FALSE
